@@ -331,6 +331,12 @@ def run_check(check_id, tier, seed):
     if unknown:
         print("  %d violation(s) recorded not matching any known finding; by oracle: %s" % (
             len(unknown), json.dumps(per_oracle)))
+        bysig = {}
+        for v in unknown:
+            k = v["oracle"] + " " + json.dumps(v.get("sig"), sort_keys=True)
+            bysig[k] = bysig.get(k, 0) + 1
+        for k, n in sorted(bysig.items(), key=lambda kv: -kv[1])[:15]:
+            print("    %6d  %s" % (n, k))
         return 1
     return 0
 
